@@ -414,6 +414,9 @@ pub fn install_panic_hook() {
         } else {
             "panic".into()
         };
+        if std::env::var("FPVERIF_SHOW_PANICS").is_ok() {
+            eprintln!("PANIC {loc}: {msg}");
+        }
         LAST_PANIC.with(|p| *p.borrow_mut() = Some(format!("{loc}: {msg}")));
     }));
 }
